@@ -2,6 +2,7 @@ package main
 
 import (
 	"bufio"
+	"bytes"
 	"encoding/json"
 	"fmt"
 	"io/ioutil"
@@ -80,6 +81,10 @@ func (c *ctx) emit(ev M) {
 	b, err := json.Marshal(ev)
 	if err != nil {
 		fmt.Fprintln(os.Stderr, "harness error:", err)
+		os.Exit(2)
+	}
+	if bytes.Contains(b, []byte("null")) && bytes.Contains(b, []byte(":null")) {
+		fmt.Fprintln(os.Stderr, "harness error: trace encoding: null in event", string(b[:200]))
 		os.Exit(2)
 	}
 	c.w.Write(b)
